@@ -4,7 +4,12 @@ use crate::engine::*;
 use crate::tape::Tape;
 use crate::{ensure, note};
 use std::mem::{align_of, size_of};
-use vm_memory::{Be16, Be32, Be64, BeSize, ByteValued, Bytes, Le16, Le32, Le64, LeSize, VolatileSlice};
+use vm_memory::{Be16, Be32, Be64, BeSize, ByteValued, Bytes, GuestAddress, GuestMemory, GuestMemoryRegion, Le16, Le32, Le64, LeSize, VolatileSlice};
+
+thread_local! {
+    /// two adjacent 64-byte regions
+    static TWO: Result<vm_memory::GuestMemoryMmap<()>, String> = crate::common::build_mmap(&crate::common::Layout { regs: vec![(0x1000, 64), (0x1040, 64)] });
+}
 
 macro_rules! endian_fn {
     ($name:ident, $W:ty, $N:ty, $to_bytes:ident, $from_bytes:ident, $wname:expr) => {
@@ -64,6 +69,25 @@ macro_rules! endian_fn {
                     ensure!(r.to_native() == <$N>::$from_bytes(wire), "{}: read_obj of wire bytes {:x?} gives {:#x}", $wname, wire, r.to_native());
                     buf = [0xA5u8; 32];
                 }
+                // the same through guest memory, with the object straddling two adjacent regions
+                let n = size_of::<$N>();
+                TWO.with(|gm| -> Result<(), String> {
+                    let gm = gm.as_ref().map_err(|e| format!("HARNESS-PANIC: {}", e))?;
+                    let (p0, p1) = {
+                        let mut it = gm.iter();
+                        (it.next().unwrap().as_ptr(), it.next().unwrap().as_ptr())
+                    };
+                    for k in 1..n {
+                        let a = GuestAddress(0x1000 + 64 - k as u64);
+                        gm.write_obj(w, a).map_err(|e| format!("{}: guest write_obj across regions: {:?}", $wname, e))?;
+                        // SAFETY: inside the two 64-byte regions.
+                        let raw: Vec<u8> = (0..n).map(|i| unsafe { if i < k { p0.add(64 - k + i).read_volatile() } else { p1.add(i - k).read_volatile() } }).collect();
+                        ensure!(raw[..] == wire[..], "{}: {:#x} stored {} bytes before a region boundary reads {:x?} in memory, declared order gives {:x?}", $wname, v, k, raw, wire);
+                        let r: $W = gm.read_obj(a).map_err(|e| format!("{}: guest read_obj across regions: {:?}", $wname, e))?;
+                        ensure!(r.to_native() == v, "{}: {:#x} stored across a region boundary reads back as {:#x}", $wname, v, r.to_native());
+                    }
+                    Ok(())
+                })?;
             }
             Ok(())
         }
